@@ -71,6 +71,9 @@ type yieldState struct {
 	fired    [maxYieldFired]uint64
 	nfired   int
 	suppress []uint64
+	// goschedOnly: every fired yield is a plain reschedule, never a sleep (for scenarios that drive the
+	// network step by step and take "everything is blocked" for "the delivery has been processed")
+	goschedOnly bool
 }
 
 func (y *yieldState) init(r *Run) {
@@ -139,6 +142,9 @@ func (y *yieldState) hook(site int) {
 	}
 	w := splitmix(v)
 	act := 1 + w%3
+	if y.goschedOnly {
+		act = 1
+	}
 	if y.nfired < maxYieldFired {
 		y.fired[y.nfired] = code<<2 | act // site<<34 | ord<<2 | act
 		y.nfired++
@@ -163,6 +169,9 @@ func (y *yieldState) hook(site int) {
 // YieldsOn switches the armed yields on or off (scenarios keep them off during
 // set-up phases that are not under test).
 func (r *Run) YieldsOn(on bool) { r.yield.on = on }
+
+// YieldsRescheduleOnly makes every fired yield a plain reschedule (no sleeps).
+func (r *Run) YieldsRescheduleOnly() { r.yield.goschedOnly = true }
 
 // ArmYields arms up to nSites random instrumented sites whose function name
 // matches one of the prefixes, with a total budget of non-benign actions and
